@@ -16,6 +16,11 @@ from ..nf import NF, Env, Opaque, attr, show, sym
 from ..rust import PY2RUST, RustOps
 from .c03 import r5_order_offset
 from ..rulekit import need, returns
+import functools as _ft
+from ..rulekit import need_any as _need_any
+# (statements that must run whenever the method gets past its refusals: a guard put around one of them is a violation)
+need_a = _ft.partial(need, always=True)
+need_any_a = _ft.partial(_need_any, always=True)
 from ..tmpl import T, tall, thas, tmatch
 from ..paths import summaries
 
@@ -266,7 +271,7 @@ def _super_call_on_every_path(ctx, qual: str, meth: str) -> tuple[bool, str]:
 def r3_rows(ctx) -> None:
     prog = ctx.program
     R = "C01.R3"
-    need(ctx, R, f"{DF}._init_io_nodes", "DfBase._init_io_nodes: Input row = the container's inputs",
+    need_a(ctx, R, f"{DF}._init_io_nodes", "DfBase._init_io_nodes: Input row = the container's inputs",
          ["E_inputs = L_op._inputs()", "self.hugr.add_node(ops.Input(E_inputs), self.parent_node, len(E_inputs))"],
          "the Input node's row (and port count) must be the container op's _inputs()")
     so_ps = [p for p in ctx.paths(f"{DF}.set_outputs") if p.kind != "raise"]
@@ -288,14 +293,14 @@ def r3_rows(ctx) -> None:
                   f"{c.name}.set_outputs must do the base wiring (super().set_outputs(*{va})) on every non-raising path: otherwise the Output node is not wired or the "
                   "container never learns its output row", fn, found=why)
     # container output counts agree with the op's output count (C06 table)
-    need(ctx, R, "hugr.build.dfg.Dfg.set_outputs", "Dfg.set_outputs: container output count", ["self._set_parent_output_count(len(L_outputs))"],
+    need_a(ctx, R, "hugr.build.dfg.Dfg.set_outputs", "Dfg.set_outputs: container output count", ["self._set_parent_output_count(len(L_outputs))"],
          "the container's output count must be len(outputs) (the length of its signature's output row)", supers=True)
     from ..rulekit import need_any
-    need_any(ctx, R, "hugr.build.cfg.Block.set_outputs", "Block.set_outputs: container output count",
+    need_any_a(ctx, R, "hugr.build.cfg.Block.set_outputs", "Block.set_outputs: container output count",
              [["L_bt = self.hugr.port_type(L_outputs[0].out_port())", "self._set_parent_output_count(len(L_bt.variant_rows))"],
               ["self._set_parent_output_count(len(self.hugr.port_type(L_outputs[0].out_port()).variant_rows))"]],
              "a block has one control output per variant of the branch sum carried by its first output", supers=True)
-    need_any(ctx, R, "hugr.build.cond_loop.TailLoop.set_outputs", "TailLoop.set_outputs: container output count",
+    need_any_a(ctx, R, "hugr.build.cond_loop.TailLoop.set_outputs", "TailLoop.set_outputs: container output count",
              [["L_st = self.hugr.port_type(L_outputs[0].out_port())", "self._set_parent_output_count(len(L_st.variant_rows[1]) + len(L_outputs) - 1)"],
               ["self._set_parent_output_count(len(self.hugr.port_type(L_outputs[0].out_port()).variant_rows[1]) + len(L_outputs) - 1)"]],
              "a tail loop's outputs are the break variant's row followed by the rest of the body outputs", supers=True)
@@ -325,9 +330,9 @@ def r3_rows(ctx) -> None:
         all("self._nth_outputs(" in " ".join(p.effect_texts()) for p in be)
     ctx.check(ok, R, "Cfg.branch_exit: exit row = the branch's successor row", f_[1].path, f_[0].lineno,
               "every exit branch links the source to the exit block's port 0 and takes the exit row from the source's successor row", f_[0])
-    need(ctx, R, f"{CFGQ}._nth_outputs", "Cfg._nth_outputs: successor i receives variant i + other outputs",
+    need_a(ctx, R, f"{CFGQ}._nth_outputs", "Cfg._nth_outputs: successor i receives variant i + other outputs",
          ["self.hugr._get_typed_op(E_p.node, ops.DataflowBlock).nth_outputs(E_p.offset)"])
-    need(ctx, R, f"{CFGQ}.add_successor", "Cfg.add_successor: block inputs = predecessor's successor row",
+    need_a(ctx, R, f"{CFGQ}.add_successor", "Cfg.add_successor: block inputs = predecessor's successor row",
          ["L_b = self.add_block(*self._nth_outputs(L_pred))", "self.branch(L_pred, L_b)"])
     br = [p for p in ctx.paths(f"{CFGQ}.branch")]
     ok = bool(br) and all((p.kind == "return" and "self.branch_exit(" in p.value_text()) or p.find_effect("self.branch_exit(E_s)")
@@ -336,10 +341,10 @@ def r3_rows(ctx) -> None:
     ctx.check(ok, R, "Cfg.branch: control edges enter a block at port 0", f_[1].path, f_[0].lineno, "", f_[0])
     # op-side setters
     for cname in ("DFG", "Case", "FuncDefn"):
-        need(ctx, R, f"hugr.ops.{cname}._set_out_types", f"hugr.ops.{cname}: row setter", ["self._outputs = L_types"],
+        need_a(ctx, R, f"hugr.ops.{cname}._set_out_types", f"hugr.ops.{cname}: row setter", ["self._outputs = L_types"],
              f"{cname} must record the row it is given in its signature fields")
-    need(ctx, R, "hugr.ops.Output._set_in_types", "hugr.ops.Output: row setter", ["self._types = L_types"])
-    need(ctx, R, "hugr.ops.DataflowBlock._set_out_types", "hugr.ops.DataflowBlock: row setter",
+    need_a(ctx, R, "hugr.ops.Output._set_in_types", "hugr.ops.Output: row setter", ["self._types = L_types"])
+    need_a(ctx, R, "hugr.ops.DataflowBlock._set_out_types", "hugr.ops.DataflowBlock: row setter",
          ["L_s, L_o = tys.get_first_sum(L_types)", "self._sum = L_s", "self._other_outputs = L_o"],
          "DataflowBlock must record the row it is given in its signature fields")
     tl = [p for p in ctx.paths("hugr.ops.TailLoop._set_out_types") if p.kind != "raise"]
@@ -357,14 +362,14 @@ def r3_rows(ctx) -> None:
          ["L_tys = [self._wire_up_port(L_node, c0, c1) for c0, c1 in enumerate(L_ports)]", "E_op._set_in_types(L_tys)", "L_sig = E_op.outer_signature()",
           "self.hugr._update_port_count(L_node, num_inps=len(L_sig.input), num_outs=len(L_sig.output))"],
          "input port i must receive wire i, a partial op must be given the wire types, and the node's port counts must come from the completed signature")
-    need(ctx, R, "hugr.build.dfg.Function.declare_outputs", "Function.declare_outputs",
+    need_a(ctx, R, "hugr.build.dfg.Function.declare_outputs", "Function.declare_outputs",
          ["self._set_parent_output_count(len(L_t))", "self.parent_op._set_out_types(L_t)"])
     # nested containers take their input rows from the wires they are given
-    need(ctx, R, f"{DF}.add_nested", "DfBase.add_nested: container inputs = types of the given wires, then wired",
+    need_a(ctx, R, f"{DF}.add_nested", "DfBase.add_nested: container inputs = types of the given wires, then wired",
          ["L_d = Dfg.new_nested(ops.DFG(self._wire_types(L_args)), self.hugr, self.parent_node)", "self._wire_up(L_d.parent_node, L_args)"])
-    need(ctx, R, f"{DF}.add_cfg", "DfBase.add_cfg: container inputs = types of the given wires, then wired",
+    need_a(ctx, R, f"{DF}.add_cfg", "DfBase.add_cfg: container inputs = types of the given wires, then wired",
          ["L_c = Cfg.new_nested(self._wire_types(L_args), self.hugr, self.parent_node)", "self._wire_up(L_c.parent_node, L_args)"])
-    need(ctx, R, f"{DF}.add_tail_loop", "DfBase.add_tail_loop: container inputs = types of the given wires, then wired",
+    need_a(ctx, R, f"{DF}.add_tail_loop", "DfBase.add_tail_loop: container inputs = types of the given wires, then wired",
          ["L_t = TailLoop.new_nested(ops.TailLoop(E_ji, E_rest), self.hugr, self.parent_node)", "self._wire_up(L_t.parent_node, (*L_just, *L_rest))"])
     e = tall(ctx.cfn(f"{DF}.add_tail_loop").body, ["ops.TailLoop(E_ji, E_rest)", "self._wire_up(L_t.parent_node, (*L_just, *L_rest))"])
     if e is not None:
@@ -375,7 +380,7 @@ def r3_rows(ctx) -> None:
         ok = val(e["E_ji"]) == f"self._wire_types({e['L_just']})" and val(e["E_rest"]) == f"self._wire_types({e['L_rest']})"
         f_ = ctx.locate(f"{DF}.add_tail_loop")
         ctx.check(ok, R, "DfBase.add_tail_loop: rows = types of the two wire groups", f_[1].path, f_[0].lineno, "", f_[0])
-    need(ctx, R, f"{DF}.add_conditional", "DfBase.add_conditional: container inputs = types of the given wires, then wired",
+    need_a(ctx, R, f"{DF}.add_conditional", "DfBase.add_conditional: container inputs = types of the given wires, then wired",
          ["L_s, L_o = tys.get_first_sum(self._wire_types(L_all))", "L_c = Conditional.new_nested(L_s, L_o, self.hugr, self.parent_node)", "self._wire_up(L_c.parent_node, L_all)"])
 
 
@@ -528,6 +533,8 @@ FN = "hugr-py/src/hugr/build/function.py"
 O = "hugr-py/src/hugr/ops.py"
 B = "hugr-py/src/hugr/hugr/base.py"
 MUTANTS = [
+    dict(name="output-count-only-when-some", file=D, expect="C01.R3", old="        super().set_outputs(*outputs)\n        self._set_parent_output_count(len(outputs))",
+         new="        super().set_outputs(*outputs)\n        if outputs:\n            self._set_parent_output_count(len(outputs))"),
     dict(name="output-before-input", file=D, expect="C01.R1",
          old="        self.input_node = self.hugr.add_node(\n            ops.Input(inputs), self.parent_node, len(inputs)\n        )\n        self.output_node = self.hugr.add_node(ops.Output(), self.parent_node)",
          new="        self.output_node = self.hugr.add_node(ops.Output(), self.parent_node)\n        self.input_node = self.hugr.add_node(\n            ops.Input(inputs), self.parent_node, len(inputs)\n        )"),
